@@ -70,6 +70,11 @@ def run(repo, R):
         check_wrapper_dispatch(repo, _wf, R, "DISPATCH")
     R.rule("HERM", "the kernels are (imaginary unit) x (real) and the symmetric fill mirrors blocks by the adjoint (conjugate transpose), never in place")
     R.rule("UNIT", "the scalar prefactor of both kernels is -i (operators -i grad and -i r x grad)")
+    R.rule("S0", "base entry of the shared overlap/moment table is the 1-D Gaussian product integral")
+    R.rule("Sa", "Obara-Saika step on the first index: M[i] = (P-A) M[i-1] + (i-1)/(2p) M[i-2]")
+    R.rule("Sb", "Obara-Saika step on the second index with the coupling i/(2p) M[i-1, j-1]")
+    R.rule("Se", "first-moment step M[1] = (P-0) M[0] + (i M[0,i-1] + j M[0,j-1])/(2p) about the coordinate origin (angular momentum)")
+    R.rule("S-LEAD", "each table axis is incremented with one centre throughout")
     R.rule("D", "first-derivative table: D[1] = 2 alpha_a M[i+1] - i M[i-1]")
     R.rule("D0", "derivative table starts from the overlap table of (A, alpha) vs (B, beta)")
     R.rule("PAD", "padding of the overlap table by the derivative order")
@@ -124,7 +129,10 @@ def run(repo, R):
         if len(dsubs) != 1:
             raise AnalysisError("STENCIL", "the momentum kernel does not reach the derivative table exactly once", f.where())
         info = check_diff_extractor(repo, dsubs[0], findings)
-        minfo = check_moment_kernel(repo, info["moment"].func, None, [], ex=info["moment"])
+        minfo = check_moment_kernel(repo, info["moment"].func, None, findings, ex=info["moment"])
+        for s_, name_, _r in minfo["stores"]:
+            if not [fd for fd in findings if fd.store is s_]:
+                R.ok(name_, s_.func.site, s_.text, detail="conforms (momentum)")
         roles = {k: v for k, v in minfo["axis_role"].items() if v in ("a", "b")}
         cf, rest = split_numeric(ret.e)
         if cf != -sp.I:
@@ -164,7 +172,10 @@ def run(repo, R):
             raise AnalysisError("CROSS", "the angular-momentum kernel must use one moment table and one derivative table", f2.where())
         mom, dsub = moms[0], dsubs[0]
         info = check_diff_extractor(repo, dsub, findings)
-        minfo = check_moment_kernel(repo, mom.func, None, findings, ex=mom, only=("Se",))
+        minfo = check_moment_kernel(repo, mom.func, None, findings, ex=mom)
+        for s_, name_, _r in minfo["stores"]:
+            if not [fd for fd in findings if fd.store is s_]:
+                R.ok(name_, s_.func.site, s_.text, detail="conforms (angular momentum: position factor)")
         # the moment table: origin = coordinate origin (literal zero vector), orders up to 1, for (A, alpha) vs (B, beta)
         margs = mom.call_args
         if margs[0].e != 0:
